@@ -2,12 +2,18 @@
 // One query per graph SHAPE (VF_SHAPE: bit i*N+j set = the task of rule i waits on rule j); the rule keys - which
 // decide the order in which findCycle explores predecessors, hence WHICH cycle it reports - are symbolic.
 // The requested key is rule 0 (every other choice is a relabelling of some shape).
+// VF_SCAN: bit i set = rule i has no task yet, it is still being SCANNED (its recorded dependencies are being checked) and
+// is parked on at most one input; who waits for a scanning rule is recorded in that rule's scan record (paused input requests
+// of tasks, deferred scan requests of other scanning rules) - the path by which cycles recorded by EARLIER builds are found.
 #include "eng.h"
 #ifndef VF_N
 #define VF_N 3
 #endif
 #ifndef VF_SHAPE
 #define VF_SHAPE 0
+#endif
+#ifndef VF_SCAN
+#define VF_SCAN 0
 #endif
 #ifndef VF_RESOLVE
 #define VF_RESOLVE 0
@@ -20,7 +26,9 @@ extern "C" RuleInfo* stub_getRuleInfoForKeyType(BuildEngineImpl*, const KeyType*
 // the hash of a pointer is any function of it: an injective small number keeps the real hash tables' bucket arithmetic concrete
 extern "C" size_t stub_hash_task(const void*, Task* t) { for (unsigned i = 0; i < VF_N; i++) if (t == g_task[i]) return i + 1; return 0; }
 extern "C" size_t stub_hash_rule(const void*, Rule* r) { for (unsigned i = 0; i < VF_N; i++) if (r == g_ri[i]->rule.get()) return i + 1; return 0; }
-extern "C" size_t stub_hash_record(const void*, const void* p) { return 0; }
+static BuildEngineImpl::RuleScanRecord* g_rec[VF_N];
+extern "C" size_t stub_hash_record(const void*, const BuildEngineImpl::RuleScanRecord* p) { for (unsigned i = 0; i < VF_N; i++) if (p == g_rec[i]) return i + 1; return 0; }
+static bool scanning(unsigned i) { return ((unsigned)VF_SCAN >> i) & 1u; }
 static bool edge(unsigned i, unsigned j) { return ((unsigned)VF_SHAPE >> (i * VF_N + j)) & 1u; }
 extern "C" void harness_cycle(void) {
   BuildEngine& engine = *new BuildEngine(*new CDelegate); BuildEngineImpl* impl = static_cast<BuildEngineImpl*>(engine.impl); impl->currentEpoch = 1;
@@ -28,21 +36,33 @@ extern "C" void harness_cycle(void) {
   for (unsigned i = 0; i < VF_N; i++) {
     key[i] = nondet_u8(); for (unsigned k = 0; k < i; k++) VF_ASSUME(key[k] != key[i]);      // distinct keys, any order
     KeyID id; id._value = i + 1;
-    g_ri[i] = new RuleInfo(id, std::unique_ptr<Rule>(new HRule(KeyType(std::string(1, (char)key[i])), CommandSignature(0))));
-    g_ri[i]->state = RuleInfo::StateKind::InProgressWaiting;
-    g_task[i] = new HTask;
+    auto it = impl->ruleInfos.emplace(id, RuleInfo(id, std::unique_ptr<Rule>(new HRule(KeyType(std::string(1, (char)key[i])), CommandSignature(0))))).first;
+    g_ri[i] = &it->second;
+    g_task[i] = nullptr; g_rec[i] = nullptr; ti[i] = nullptr;
+    if (scanning(i)) { g_ri[i]->state = RuleInfo::StateKind::IsScanning; g_rec[i] = new BuildEngineImpl::RuleScanRecord; g_ri[i]->inProgressInfo.pendingScanRecord = g_rec[i]; }
+    else { g_ri[i]->state = RuleInfo::StateKind::InProgressWaiting; g_task[i] = new HTask; }
   }
-  for (unsigned i = 0; i < VF_N; i++) {
+  for (unsigned i = 0; i < VF_N; i++) if (!scanning(i)) {
     auto it = impl->taskInfos.emplace(g_task[i], TaskInfo(g_task[i])).first;
     ti[i] = &it->second; ti[i]->forRuleInfo = g_ri[i]; g_ri[i]->inProgressInfo.pendingTaskInfo = ti[i];
   }
-  for (unsigned i = 0; i < VF_N; i++) { unsigned w = 0; for (unsigned j = 0; j < VF_N; j++) if (edge(i, j)) { w++; BuildEngineImpl::TaskInputRequest r{}; r.taskInfo = ti[i]; r.inputID = j; r.inputRuleInfo = g_ri[j]; ti[j]->requestedBy.push_back(r); } ti[i]->waitCount = w; }
+  for (unsigned i = 0; i < VF_N; i++) {
+    unsigned w = 0;
+    for (unsigned j = 0; j < VF_N; j++) if (edge(i, j)) {
+      w++;
+      if (!scanning(i)) { BuildEngineImpl::TaskInputRequest r{}; r.taskInfo = ti[i]; r.inputID = j; r.inputRuleInfo = g_ri[j];
+                          if (!scanning(j)) ti[j]->requestedBy.push_back(r); else g_rec[j]->pausedInputRequests.push_back(r); }          // a task's request: waiting for j's task, or paused until j is scanned
+      else { BuildEngineImpl::RuleScanRequest r = scanRequest(g_ri[i], 0, g_ri[j], false);
+             if (!scanning(j)) ti[j]->deferredScanRequests.push_back(r); else g_rec[j]->deferredScanRequests.push_back(r); }             // i's scan is deferred until j is available
+    }
+    if (!scanning(i)) ti[i]->waitCount = w;
+  }
 #if VF_RESOLVE
   // no rule of the cycle is still scanning and none has a prior result: the cycle cannot be broken, it must be reported
   bool goOn = impl->resolveCycle(KeyType("root"));
   VF_ASSERT(!goOn && g_reports == 1 && g_reported != nullptr, "a cycle that cannot be broken is reported to the client exactly once and the build does not go on");
   std::vector<Rule*>& cyc = *g_reported;
-  for (unsigned i = 0; i < VF_N; i++) { unsigned w = 0; for (unsigned j = 0; j < VF_N; j++) if (edge(i, j)) w++; VF_ASSERT(ti[i]->waitCount == w, "reporting a cycle changes no task"); }
+  for (unsigned i = 0; i < VF_N; i++) if (!scanning(i)) { unsigned w = 0; for (unsigned j = 0; j < VF_N; j++) if (edge(i, j)) w++; VF_ASSERT(ti[i]->waitCount == w, "reporting a cycle changes no task"); }
 #else
   std::vector<Rule*>& cyc = *new std::vector<Rule*>(impl->findCycle(KeyType("root")));
 #endif
